@@ -8,6 +8,7 @@ package h
 import (
 	"encoding/json"
 	"fmt"
+	"regexp"
 	"sort"
 	"strings"
 	"time"
@@ -19,6 +20,7 @@ import (
 
 type c28W struct {
 	Progs   []c03W `json:"progs"`
+	Loops   []c39W `json:"loops,omitempty"` // same length as Progs: when Loops[i].Main is set, root i runs that break/continue/return program instead
 	Monitor int    `json:"monitor"` // samples taken by the monitor task
 	Limit   int    `json:"limit"`
 }
@@ -31,7 +33,16 @@ func init() {
 func genC28(r *Rand, tier string) Case {
 	var w c28W
 	n := 1 + r.Intn(4)
+	w.Loops = make([]c39W, n)
 	for i := 0; i < n; i++ {
+		if r.Intn(3) == 0 {
+			// asynchronous cancellation (break/continue/return, also out of loops that feed pipelines) racing
+			// with commands that are just starting: the processes must still all be released
+			_, lw := genC39Once(r, tier, 12)
+			w.Loops[i] = lw
+			w.Progs = append(w.Progs, c03W{})
+			continue
+		}
 		g := &c03gen{r: r, budget: 14, fpfx: fmt.Sprintf("r%d", i)}
 		var p c03W
 		p.Pfx = g.fpfx
@@ -69,6 +80,8 @@ func genC28(r *Rand, tier string) Case {
 	return Case{Class: fmt.Sprintf("roots-%d", n), W: mustJSON(w), Sched: interpSched(r, 1500*n)}
 }
 
+var c28Rename = regexp.MustCompile(`\blf(\d+)\b`)
+
 func fidSnapshot() map[uint32]*lang.Process {
 	m := map[uint32]*lang.Process{}
 	for _, p := range lang.GlobalFIDs.ListAll() {
@@ -84,6 +97,11 @@ func runC28(c *Case, e *Env) Outcome {
 	}
 	srcs := make([]string, len(w.Progs))
 	for i := range w.Progs {
+		if i < len(w.Loops) && len(w.Loops[i].Main) > 0 {
+			// function names are global: give this root's functions their own names
+			srcs[i] = c28Rename.ReplaceAllString(w.Loops[i].source(), fmt.Sprintf("r%dlf$1", i))
+			continue
+		}
 		srcs[i] = w.Progs[i].source()
 	}
 	all := strings.Join(srcs, "\n# ---- next root\n")
@@ -208,6 +226,9 @@ func shrinkC28(c *Case) []Case {
 		if len(w.Progs) > 1 {
 			v := w
 			v.Progs = append(append([]c03W{}, w.Progs[:i]...), w.Progs[i+1:]...)
+			if len(w.Loops) == len(w.Progs) {
+				v.Loops = append(append([]c39W{}, w.Loops[:i]...), w.Loops[i+1:]...)
+			}
 			emit(v)
 		}
 	}
